@@ -33,4 +33,31 @@ WrittenAll(as, i) == IF i > Len(as) THEN <<>> ELSE <<Written(as[i])>> \o Written
 \* comments instead of being split at spaces; it can only show on values containing '"' or '#'
 HasC(s, c) == \E i \in 1..Len(s) : s[i] = c
 RetokenClass(v) == HasC(v, QUOTE) \/ HasC(v, HASH)
+\* ---- the inverse of Written on the documented template syntax: the template a written argument denotes, when it
+\* is inside the domain of the property (names free of $ % { \ and of the break characters; no stray $ % \)
+TNameOK(nm) == NameOK(nm) /\ \A i \in 1..Len(nm) : nm[i] \notin {DOLLAR, PERCENT, LBRACE, BS}
+RECURSIVE FindRB(_,_)
+FindRB(s, i) == IF i > Len(s) THEN 0 ELSE IF s[i] = RBRACE THEN i ELSE FindRB(s, i+1)
+BadT == [ok |-> FALSE, parts |-> <<>>]
+FlushLit(lit) == IF lit = <<>> THEN <<>> ELSE <<[k |-> "lit", t |-> lit]>>
+RECURSIVE TParts(_,_,_)
+TParts(s, i, lit) ==
+  IF i > Len(s) THEN [ok |-> TRUE, parts |-> FlushLit(lit)]
+  ELSE IF s[i] = DOLLAR /\ i < Len(s) /\ s[i+1] = LBRACE THEN
+     LET j == FindRB(s, i+2) IN
+     IF j = 0 THEN BadT
+     ELSE LET nm == SubSeq(s, i+2, j-1)  rest == TParts(s, j+1, <<>>) IN
+          IF ~TNameOK(nm) \/ ~rest.ok THEN BadT ELSE [ok |-> TRUE, parts |-> FlushLit(lit) \o <<[k |-> "var", t |-> nm]>> \o rest.parts]
+  ELSE IF s[i] = BS /\ i + 1 < Len(s) /\ s[i+1] = DOLLAR /\ s[i+2] = LBRACE THEN
+     LET j == FindRB(s, i+3) IN
+     IF j = 0 THEN BadT
+     ELSE LET nm == SubSeq(s, i+3, j-1)  rest == TParts(s, j+1, <<>>) IN
+          IF ~TNameOK(nm) \/ ~rest.ok THEN BadT ELSE [ok |-> TRUE, parts |-> FlushLit(lit) \o <<[k |-> "esc", t |-> nm]>> \o rest.parts]
+  ELSE IF s[i] \in {DOLLAR, PERCENT, BS} THEN BadT
+  ELSE TParts(s, i+1, Append(lit, s[i]))
+\* [ok, arg]: the template of one written argument
+Templ(w) == IF Len(w) >= 4 /\ w[1] = PERCENT /\ w[2] = LBRACE /\ w[Len(w)] = RBRACE /\ TNameOK(SubSeq(w, 3, Len(w)-1))
+            THEN [ok |-> TRUE, arg |-> [spread |-> TRUE, name |-> SubSeq(w, 3, Len(w)-1)]]
+            ELSE LET r == TParts(w, 1, <<>>) IN [ok |-> r.ok, arg |-> [spread |-> FALSE, parts |-> r.parts]]
+Templs(ws) == [i \in 1..Len(ws) |-> Templ(ws[i])]
 =============================================================================
